@@ -243,7 +243,7 @@ func Check(env *core.Env, rep *core.Report) *core.Result {
 	}
 
 	// the statement's own example on the real TaskRunner (one task name shared by the stages)
-	realBarrierRuns := RealBarrier(env, rep, map[bool]int{false: 1, true: 10}[thorough])
+	realBarrierRuns := RealBarrier(env, rep, map[bool]int{false: 2, true: 10}[thorough])
 
 	// whole-binary executions against the composed specification Taskctl.tla
 	nBin := 40
